@@ -285,3 +285,24 @@ package shaping
 //@   ensures [truncating] l.truncating == (config.TruncateAfterLines > 0)
 //@   ensures [scratch] len(l.scratch.paragraph) == 0 && len(l.scratch.alt) == 0 && len(l.scratch.best) == 0 && l.scratch.lineUsed == 0 && l.scratch.altAdvance == 0 && len(l.scratch.line) == 0
 //@   modifies unspecified
+//
+// ---------------------------------------------------------------------------------------------
+// Property C03: break candidates. A word candidate ends right before a UAX #14 boundary; it is "required" exactly
+// when that boundary is mandatory and it is not the end of the text ("a mandatory break always ends its line").
+//@ spec wsOK(b *breaker) bool = b.wordSegmenter != nil && b.wordSegmenter.attributeIterator.src != nil && len(b.wordSegmenter.attributeIterator.src.attributes) == len(b.wordSegmenter.attributeIterator.src.text)+1 && 0 <= b.wordSegmenter.attributeIterator.pos && b.wordSegmenter.attributeIterator.pos <= 1<<40 && 0 <= b.totalRunes && b.totalRunes <= 1<<40
+//@ func breaker.nextWordRaw C03
+//@   mode int
+//@   requires wsOK(b)
+//@   ensures [at-line-boundary] implies(ok, option.breakAtRune == b.wordSegmenter.attributeIterator.pos-1 && 0 <= option.breakAtRune &&
+//@     | b.wordSegmenter.attributeIterator.src.attributes[option.breakAtRune+1]&b.wordSegmenter.attributeIterator.flag != 0)
+//@   ensures [required-iff-mandatory-before-end] implies(ok, option.required == (b.wordSegmenter.attributeIterator.src.attributes[option.breakAtRune+1]&2 != 0 && option.breakAtRune != b.totalRunes-1))
+//@   ensures [no-candidate] implies(!ok, option.breakAtRune == 0 && !option.required)
+//@   modifies b.wordSegmenter.attributeIterator.pos; b.wordSegmenter.attributeIterator.lastBreak
+//
+//@ spec gsOK(b *breaker) bool = b.graphemeSegmenter != nil && b.graphemeSegmenter.attributeIterator.src != nil && len(b.graphemeSegmenter.attributeIterator.src.attributes) == len(b.graphemeSegmenter.attributeIterator.src.text)+1 && 0 <= b.graphemeSegmenter.attributeIterator.pos && b.graphemeSegmenter.attributeIterator.pos <= 1<<40
+//@ func breaker.nextGraphemeRaw C03
+//@   mode int
+//@   requires gsOK(b)
+//@   ensures [at-grapheme-boundary] implies(ok, option.breakAtRune == b.graphemeSegmenter.attributeIterator.pos-1 && 0 <= option.breakAtRune && !option.required &&
+//@     | b.graphemeSegmenter.attributeIterator.src.attributes[option.breakAtRune+1]&b.graphemeSegmenter.attributeIterator.flag != 0)
+//@   modifies b.graphemeSegmenter.attributeIterator.pos; b.graphemeSegmenter.attributeIterator.lastBreak
